@@ -198,6 +198,7 @@ PANIC_PATTERNS = [
     ("unwrap", r"\.unwrap\(\)"), ("expect", r"\.expect\("), ("slice", r"\w\[[^\]]*\.\.[^\]]*\]"),
     ("index", r"[\w\)]\[[^\]\.]+\]"), ("split_at", r"split_at\("), ("macro", r"unreachable!|panic!|todo!|unimplemented!|assert!|assert_eq!"),
     ("sub", r"\b[\w\.\(\)]+\s-\s[\w\.\(\)]+"),
+    ("node_slice", r"\w\[[^\]]*byte_range\(\)\]"),
 ]
 
 
